@@ -256,8 +256,8 @@ template<class V> static void run(const VpCase* c, VpOutcome* o) {
         for (unsigned i = 0; i < W; ++i) { T s{}; Call<has_##fn<T, T, IT>::value>::go(fn_##fn(), s, x.sa(i), (IT)ev[i]); x.sres[i] = elem<T>::to_bits(s); } break; }
         EXP_FUNCS(X)
 #undef X
-    case OP_frexp: { have = isf && has_frexp<V, V, IV*>::value && has_frexp<T, T, IT*>::value; if (!have) break; IV e{}; V r{}; IV* ep = &e; Call<has_frexp<V, V, IV*>::value>::go(fn_frexp(), r, va, ep); rd<V>(r, x.vres); rd<IV>(e, x.vres2); x.two = true;
-        for (unsigned i = 0; i < W; ++i) { IT se = 0; IT* sp = &se; T s{}; Call<has_frexp<T, T, IT*>::value>::go(fn_frexp(), s, x.sa(i), sp); x.sres[i] = elem<T>::to_bits(s); x.sres2[i] = elem<IT>::to_bits(se);
+    case OP_frexp: { have = isf && has_frexp<V, V, IV*>::value && has_frexp<T, T, IT*>::value; if (!have) break; uint64_t pz[VP_MAXL]; for (unsigned i = 0; i < W; ++i) pz[i] = 0x5A5A5A5A5A5A5A5Aull & elem<IT>::mask(); IV e = mk<IV>(pz); V r{}; IV* ep = &e; Call<has_frexp<V, V, IV*>::value>::go(fn_frexp(), r, va, ep); rd<V>(r, x.vres); rd<IV>(e, x.vres2); x.two = true;
+        for (unsigned i = 0; i < W; ++i) { IT se = (IT)0x5A5A5A5A; IT* sp = &se; T s{}; Call<has_frexp<T, T, IT*>::value>::go(fn_frexp(), s, x.sa(i), sp); x.sres[i] = elem<T>::to_bits(s); x.sres2[i] = elem<IT>::to_bits(se);
             typedef FB<typename std::conditional<std::is_floating_point<T>::value, T, float>::type> F; if (F::isnan(x.a[i]) || F::isinf(x.a[i])) x.sres2[i] = x.vres2[i]; }   // exponent for inf/NaN is unspecified
         break; }
     default: break;
